@@ -5,6 +5,7 @@
 mod common;
 mod geom;
 mod p_dim;
+mod p_geo;
 mod p_nn;
 mod p_pred;
 mod p_exact;
